@@ -245,6 +245,12 @@ func execTimeout(env *run.Env) time.Duration {
 	return 4 * time.Minute
 }
 
+// isPar reports whether the mismatching event lies inside a Par block (goroutines).
+func isPar(r *batchResult, b badEntry) bool {
+	ln := string(r.evLines[b.L-1])
+	return strings.Contains(ln[:min(len(ln), 300)], `"op":"Pool`) || strings.Contains(ln, `"par":true`) || strings.Contains(ln[:min(len(ln), 300)], `"op":"ParEnd"`)
+}
+
 func truncJSON(b []byte) []byte {
 	if len(b) <= 1500 {
 		return b
@@ -416,6 +422,13 @@ func runCheck(env *run.Env, c *check) int {
 		if err != nil {
 			die("(E) %s: %v", m.mod, err)
 		}
+		if m.expectViolation != "" {
+			if res.Violated != m.expectViolation {
+				die("(E) %s%v: expected invariant %s to be violated by the model of the defect, got %q", m.mod, consts, m.expectViolation, res.Violated)
+			}
+			modelNotes = append(modelNotes, fmt.Sprintf("%s%v: invariant %s violated as expected (non-vacuity)", m.mod, consts, m.expectViolation))
+			continue
+		}
 		if !res.OK {
 			die("(E) %s: the bounded model does not satisfy its properties (violated %q) - specification error, not a verdict about the code\n%s", m.mod, res.Violated, tailStr(res.Output, 4000))
 		}
@@ -435,6 +448,40 @@ func runCheck(env *run.Env, c *check) int {
 	var batches [][]gen.Program
 	for i := 0; i < len(progs); i += per {
 		batches = append(batches, progs[i:min(i+per, len(progs))])
+	}
+	// -race build (pure Go kernels so that the detector sees every access): a race report is a C18 violation
+	raceBad := map[int]string{}
+	if c.race {
+		rb, err := env.BuildExec("vexec_race", "decimal_pure_go", true)
+		if err != nil {
+			die("%v", err)
+		}
+		var rmu sync.Mutex
+		var rwg sync.WaitGroup
+		rsem := make(chan struct{}, 8)
+		for i := range batches {
+			rwg.Add(1)
+			go func(i int) {
+				defer rwg.Done()
+				rsem <- struct{}{}
+				defer func() { <-rsem }()
+				pf := filepath.Join(env.Scratch, fmt.Sprintf("r%d.prog.ndjson", i))
+				if err := writePrograms(pf, batches[i]); err != nil {
+					return
+				}
+				out, code := env.ExecRace(rb, pf, filepath.Join(env.Scratch, fmt.Sprintf("r%d.ev.ndjson", i)), execTimeout(env)*3)
+				if code == 66 {
+					rmu.Lock()
+					raceBad[i] = out
+					rmu.Unlock()
+				} else if code != 0 {
+					rmu.Lock()
+					raceBad[i] = "exit " + fmt.Sprint(code) + ": " + out
+					rmu.Unlock()
+				}
+			}(i)
+		}
+		rwg.Wait()
 	}
 	results := make([]*batchResult, len(batches))
 	sem := make(chan struct{}, 8)
@@ -500,6 +547,21 @@ func runCheck(env *run.Env, c *check) int {
 			if err != nil {
 				die("reproduce: %v", err)
 			}
+			if !same && isPar(r, b) {
+				// concurrent executions are not bit-reproducible: re-run the program a few times and let TLC
+				// judge each run; the violation counts if the same property is violated again
+				for try := 0; try < 5 && !same; try++ {
+					rr := validate(env, bin, c.trace, 1000+nrep*10+try, []gen.Program{r.progs[r.progOf[b.L-1]]}, 3000)
+					if rr.err != nil {
+						die("reproduce: %v", rr.err)
+					}
+					for _, e := range rr.bad {
+						if e.PID == b.PID {
+							same = true
+						}
+					}
+				}
+			}
 			if !same {
 				die("mismatch at batch %d event %d (%s/%s) did not reproduce in a fresh process (non-deterministic?) - see %s", r.idx, b.L, b.PID, b.Kind, path)
 			}
@@ -507,6 +569,21 @@ func runCheck(env *run.Env, c *check) int {
 			vioLines = append(vioLines, fmt.Sprintf("VIOLATION property=%s replay=%s kind=%s", b.PID, path, b.Kind))
 		}
 		accepted += len(r.progs) - len(badProgs)
+	}
+
+	for i, out := range raceBad {
+		if !strings.Contains(out, "DATA RACE") {
+			die("race build failed on batch %d: %s", i, tailStr(out, 1500))
+		}
+		dir := filepath.Join(env.Home, "replays")
+		os.MkdirAll(dir, 0o755)
+		path := filepath.Join(dir, fmt.Sprintf("%s-%s-%d-race%d.json", c.id, env.Tier, env.Seed, i))
+		rf := M{"property": "C18", "kind": "race", "trace_spec": c.trace, "build": "-race,decimal_pure_go", "seed": env.Seed, "tier": env.Tier,
+			"programs": batches[i], "race_report": tailStr(out, 6000), "note": "run the programs with a -race build of harness/cmd/vexec"}
+		buf, _ := json.MarshalIndent(rf, "", " ")
+		os.WriteFile(path, buf, 0o644)
+		violations++
+		vioLines = append(vioLines, fmt.Sprintf("VIOLATION property=C18 replay=%s kind=race", path))
 	}
 
 	// vacuity: required coverage cells
